@@ -112,6 +112,17 @@ Lemma C16_parse_command_respawned :
   = true.
 Proof. vm_compute. reflexivity. Qed.
 
+(* parse_command either returns a TUPLE -- the only result for which the dispatcher starts the next reader (obligation
+   above) -- or raises into the dispatcher (TimeoutError of the timed readline, ConnectionResetError on EOF,
+   UnicodeDecodeError on a line that is not valid in the server encoding): it handles no exception itself, returns
+   nothing else and awaits nothing but the timed readline.  So a session never goes on without a reader and its idle
+   timer (abort_at of the model is "raises into the dispatcher") *)
+Lemma C16_parse_command_total :
+  slist_eqb parse_command_returns ["tuple"]
+  && slist_eqb parse_command_handles []
+  && slist_eqb parse_command_awaits ["stream.readline()"] = true.
+Proof. vm_compute. reflexivity. Qed.
+
 (* a TimeoutError of any task reaches the dispatcher: neither @worker nor the inner try handles it
    (their clauses name only errors.PathIOError / asyncio.CancelledError, neither of which is a
    superclass of TimeoutError), the outer `except Exception` only logs, and the finally block closes
@@ -384,6 +395,27 @@ Theorem C16_or_shape_differs_at_zero : forall c z, idle c = Some z -> z == 0 ->
 Proof. exact or_wiring_zero_is_unset. Qed.
 Print Assumptions C16_or_shape_differs_at_zero.
 
+(* B9. the reader task fails at t (a command line that is not valid in the server encoding, or the peer closing
+   its control connection, makes parse_command raise; obligation C16_parse_command_total ties "raises or returns
+   a tuple, which re-arms the reader"): the session ends at that very instant, no timeout involved, unless a
+   deadline ended it before -- in every case it is gone by t: no reader-less, timer-less session survives *)
+Theorem C16_abort_ends_session : forall c s t, alive s ->
+  (forall d k, end_dl std_wiring c s = Some (d, k) -> t < d) ->
+  ended (abort_at std_wiring c s t) = Some (t, CError).
+Proof. exact abort_ends_session. Qed.
+Print Assumptions C16_abort_ends_session.
+
+Theorem C16_abort_after_deadline : forall c s t d k, alive s ->
+  end_dl std_wiring c s = Some (d, k) -> d <= t ->
+  ended (abort_at std_wiring c s t) = Some (d, k).
+Proof. exact abort_after_deadline. Qed.
+Print Assumptions C16_abort_after_deadline.
+
+Theorem C16_abort_released_by : forall c s t, alive s ->
+  exists d k, ended (abort_at std_wiring c s t) = Some (d, k) /\ d <= t.
+Proof. exact abort_released_by. Qed.
+Print Assumptions C16_abort_released_by.
+
 (* ================================================================ C. non-vacuity *)
 Definition cfg1 : config := {| idle := Some 5; socket := Some 3; wait_future := Some 2 |}.
 Definition s_of (c : config) (evs : list event) : state := run_events std_wiring c (start std_wiring c 0) evs.
@@ -474,3 +506,11 @@ Example ex_pause_longer_than_socket :
   alive (s_of c (evs ++ [Tick 17])) /\ alive (s_of c (evs ++ [DataProgress 18 15; Tick 34])) /\
   ended (finish std_wiring c (s_of c evs)) = Some (3 + 15 + 2, CData).
 Proof. vm_compute. repeat split; reflexivity. Qed.
+
+(* an undecodable line at 3 in a session with idle_timeout 5: over at 3 (not at 2 + 5); with idle_timeout 2 and the
+   last command at 0.5 the idle drop at 2.5 comes first *)
+Example ex_abort :
+  ended (run_abort std_wiring cfg1 0 [Line 1 0 KPlain; Line 2 0 KPlain] 3) = Some (3, CError) /\
+  ended (run_abort std_wiring {| idle := Some 2; socket := None; wait_future := None |} 0 [Line (1 # 2) 0 KPlain] 3)
+  = Some ((1 # 2) + 2, CIdle).
+Proof. vm_compute. split; reflexivity. Qed.
